@@ -283,6 +283,7 @@ func writeEvidence(rep *Report) error {
 		"golang.org/x/tools v0.29.0 go/ssa construction and go/types",
 		"SMT solvers z3 4.8.12, z3 5.1.0 (z3-new), cvc5 1.0.3",
 		"sequential Go semantics; goroutine interleavings only through monitor invariants",
+		"machine limit: a slice whose element type has a non-zero size holds at most 2^48 elements (the Go runtime's maximal allocation on 64-bit platforms)",
 	}
 	for _, a := range rep.Assumed {
 		trusted = append(trusted, a)
